@@ -26,6 +26,10 @@ pub enum Sender {
     GatewayItselfNobodySigns,
     /// the gateway's owner / operator is named as sender and does not authorise
     RoleHolderNotSigning(bool),
+    /// the shipped example app sends on behalf of an account that authorised it: the announced sender is the app
+    ViaExampleApp,
+    /// ... that did not authorise it
+    ViaExampleAppUnauthorised,
 }
 
 #[derive(Clone, Debug, Serialize, Deserialize, PartialEq, Eq)]
@@ -94,7 +98,7 @@ impl Property for C13 {
         "C13"
     }
     fn rule(&self) -> &'static str {
-        "proptest single cases: sender (account with exact authorisation / none / authorisation for another payload / another account's authorisation; probe contract calling as itself / naming an account; the gateway's own address, its owner or its operator named as sender with nobody signing), gateway in its ordinary state or upgraded-but-not-migrated, destination chain and address strings (empty, ASCII up to 300 bytes, multi-byte UTF-8, invalid UTF-8, up to 12 KB long), payload lengths around the Keccak rate (0,1,31,32,33,135,136,137,271..273,...) up to 64 KiB with case-seeded content. Oracle: success iff the sender authorised (or is the calling contract); then exactly one event by the gateway with topics (contract_called, sender, chain, address, own Keccak-256(payload)) and data = payload, and the gateway's own ledger entries unchanged; otherwise failure, no event, full snapshot equality. non-trivial = every case (the suite has one sample); distinct by Debug hash of the whole case"
+        "proptest single cases: sender (account with exact authorisation / none / authorisation for another payload / another account's authorisation; probe contract calling as itself / naming an account; the gateway's own address, its owner or its operator named as sender with nobody signing; the shipped example app sending for an account with / without that account's authorisation), gateway in its ordinary state or upgraded-but-not-migrated, destination chain and address strings (empty, ASCII up to 300 bytes, multi-byte UTF-8, invalid UTF-8, up to 12 KB long), payload lengths around the Keccak rate (0,1,31,32,33,135,136,137,271..273,...) up to 64 KiB with case-seeded content. Oracle: success iff the sender authorised (or is the calling contract); then exactly one event by the gateway with topics (contract_called, sender, chain, address, own Keccak-256(payload)) and data = payload, and the gateway's own ledger entries unchanged; otherwise failure, no event, full snapshot equality. non-trivial = every case (the suite has one sample); distinct by Debug hash of the whole case"
     }
     fn cases(&self, tier: Tier) -> u64 {
         tier.pick(20000, 200000)
@@ -110,6 +114,8 @@ impl Property for C13 {
                 1 => Just(Sender::ContractNamingAnAccount),
                 1 => Just(Sender::GatewayItselfNobodySigns),
                 1 => any::<bool>().prop_map(Sender::RoleHolderNotSigning),
+                2 => Just(Sender::ViaExampleApp),
+                1 => Just(Sender::ViaExampleAppUnauthorised),
             ],
             strc(),
             strc(),
@@ -129,6 +135,11 @@ impl Property for C13 {
             gw.client.upgrade(&BytesN::from_array(&env, &empty_wasm_hash()));
             cx.label("migration_window_open");
         }
+        // gas service + example app for the "via an app" classes
+        let gas = deploy_gas(&env);
+        let example_id = env.register(example::Example, (&gw.id, &gas.id));
+        let example_app = example::ExampleClient::new(&env, &example_id);
+        let gas_asset = env.register_stellar_asset_contract_v2(Address::generate(&env)).address();
         let probe_id = env.register(Caller, ());
         let probe = CallerClient::new(&env, &probe_id);
         let acct = Address::generate(&env);
@@ -169,6 +180,16 @@ impl Property for C13 {
                 let inv = MockAuthInvoke { contract: &gw.id, fn_name: "call_contract", args: call_args(&acct, &payload), sub_invokes: &[] };
                 env.mock_auths(&[MockAuth { address: &other, invoke: &inv }]);
             }
+            Sender::ViaExampleApp => {
+                env.mock_all_auths();
+                soroban_sdk::token::StellarAssetClient::new(&env, &gas_asset).mint(&acct, &10);
+                env.mock_all_auths_allowing_non_root_auth();
+            }
+            Sender::ViaExampleAppUnauthorised => {
+                env.mock_all_auths();
+                soroban_sdk::token::StellarAssetClient::new(&env, &gas_asset).mint(&acct, &10);
+                env.mock_auths(&[]);
+            }
             _ => env.mock_auths(&[]),
         }
         let state0 = state_of(&env, &gw.id);
@@ -184,6 +205,11 @@ impl Property for C13 {
             Sender::AccountUnauthorised | Sender::AccountAuthorisedOtherPayload | Sender::OtherAccountAuthorised => {
                 let r = gw.client.try_call_contract(&acct, &chain, &addr, &payload);
                 (acct.clone(), matches!(r, Ok(Ok(()))), false)
+            }
+            Sender::ViaExampleApp | Sender::ViaExampleAppUnauthorised => {
+                let tok = axelar_soroban_std::types::Token { address: gas_asset.clone(), amount: 1 };
+                let r = example_app.try_send(&acct, &chain, &addr, &payload, &tok);
+                (example_id.clone(), matches!(r, Ok(Ok(()))), case.sender == Sender::ViaExampleApp)
             }
             Sender::GatewayItselfNobodySigns => {
                 let r = gw.client.try_call_contract(&gw.id, &chain, &addr, &payload);
@@ -206,10 +232,9 @@ impl Property for C13 {
         if expect_ok {
             cx.count("must_succeed");
             ensure_p!(ok, "authorised outbound call failed ({:?}, payload {} bytes)", case.sender, case.len);
-            let evs = events_since(&env, ev0);
-            ensure_p!(evs.len() == 1, "expected exactly one event, got {}", evs.len());
+            let evs: Vec<Ev> = events_since(&env, ev0).into_iter().filter(|e| e.0 == gw.id).collect();
+            ensure_p!(evs.len() == 1, "expected exactly one gateway announcement, got {}", evs.len());
             let e = &evs[0];
-            ensure_p!(e.0 == gw.id, "announcement not emitted by the gateway");
             let h = keccak256(&payload_b);
             let want_topics = vec![sym("contract_called"), scv(&env, sender_addr.clone()), scv(&env, chain.clone()), scv(&env, addr.clone()), scv(&env, BytesN::from_array(&env, &h))];
             ensure_p!(e.1 == want_topics, "announcement topics wrong (sender / chain / address / independent keccak of the {}-byte payload): got {:?}", case.len, e.1);
